@@ -1189,6 +1189,8 @@ def explore_c20(ctx, res, replay_ops=None):
         res.dist["removed=%d" % min(removed, 3)] += 1
         res.dist["scheme=" + t[3]] += 1
         res.dist["impl:" + im] += 1
+        for o in t[5:]:
+            res.dist["value:" + o] += 1
         res.nontrivial.add(op)
         if len(res.samples) < 5:
             res.sample({"op": op, "impl": im, "model": mo})
@@ -1207,17 +1209,21 @@ def explore_c20(ctx, res, replay_ops=None):
         if bad and im != "rejected":
             res.violation("oracle", "C20: configuration with scheme=%s services=%s was not rejected" % (t[3], t[4]), [op, "# impl: " + im])
     res.extra["exhaustive_subspace"] = "baseline, all single and all pairwise removals of 20 items x {http, https}" + (
-        ", all triples" if ctx.tier == "thorough" else "")
+        ", all triples" if ctx.tier == "thorough" else "") + (
+        "; baseline and all single removals under each of 7 value settings (Diameter protocol sctp / udp / absent for either "
+        "section, CGF enabled, all together), all pairs for the combined setting" + (" (thorough: for each)" if ctx.tier == "thorough" else ""))
     res.rule = ("YAML configurations derived from a valid baseline by removing subsets of 20 items (sections, TLS blocks, mandatory "
                 "scalars) and altering scheme (http/https/ftp/HTTP/absent) and serviceNameList (one/two/all three known names, a known name "
-                "twice, unknown names, empty); each is read by "
-                "factory.ReadConfig in its own process and, if accepted, the context, rating and account servers, the application "
-                "(SBI server) and the SBI listener are started; a panic in any goroutine kills the child = crash; distinct = variants")
+                "twice, unknown names, empty), the protocol of either Diameter section (tcp/sctp/udp/absent) and cgf.enable; each is read by "
+                "factory.ReadConfig in its own process and, if accepted, the CGF (when enabled), the context, rating and account servers, "
+                "the application (SBI server) and the SBI listener are started as pkg/service Start does; a panic in any goroutine kills "
+                "the child = crash; distinct = variants")
 
 
 PROPS["C20"] = dict(lean=["ChfVerif.Props.C20"], explore=explore_c20, gen=[gen_table("config", "Config.lean")],
                     trusted=["govalidator semantics (required/optional recursion) and yaml.v2 are modelled",
-                             "NRF registration and the FTP (CGF) server are not started (cgf.enable=false); MongoDB is the in-memory stand-in",
+                             "NRF registration is not started; the FTP (CGF) server is started only in the variants with cgf.enable=true (its login to the "
+                             "remote FTP host fails and is retried in the background); MongoDB is the in-memory stand-in",
                              "which sections the start-up code dereferences is hand-modelled (startsOK) and validated by starting every accepted variant"])
 
 
